@@ -8,8 +8,9 @@ use crate::model::*;
 pub const IN_NAMES: [&str; 6] = ["A", "B", "CLK", "D", "S", "EN"];
 pub const IN_ODD: [&str; 5] = ["A-~R", "é", "#1", "loop", "bits"];
 pub const OUT_NAMES: [&str; 5] = ["Q", "R", "Y", "T", "P"];
-pub const OUT_ODD: [&str; 2] = ["Q[0]", "end"];
-pub const BIDIR_NAMES: [&str; 3] = ["IO", "BD", "BUS"];
+pub const OUT_ODD: [&str; 4] = ["Q[0]", "end", "BD2_out", "IOx_out"];
+/// BU is a prefix of BUS, IO of IO2: exact-name matching of `<name>_out` matters
+pub const BIDIR_NAMES: [&str; 5] = ["IO", "BD", "BUS", "BU", "IO2"];
 pub const VIRT_NAMES: [&str; 4] = ["V", "W", "VV", "Vx"];
 /// variable names: small pool, overlapping with output names, keyword look-alikes, X/Z/C
 pub const VAR_NAMES: [&str; 16] = [
@@ -551,7 +552,8 @@ pub fn gen_expr(ch: &mut Ch, depth: u32, env: &ExprEnv) -> Expr {
                     0 => Expr::bin(BinOp::Div, Expr::lit(1), Expr::lit(0)),
                     1 => Expr::bin(BinOp::Rem, gen_leaf(ch, env), Expr::lit(0)),
                     2 => Expr::SignExt(Box::new(Expr::lit(1)), Box::new(Expr::lit(2))),
-                    _ => Expr::Random(Box::new(Expr::lit(0))),
+                    // a valid bound: an eager ite would draw (and nothing else would show it)
+                    _ => Expr::Random(Box::new(Expr::lit(if ch.chance(1, 2) { 5 } else { 0 }))),
                 };
                 let live = gen_expr(ch, depth - 1, env);
                 return if ch.chance(1, 2) {
@@ -1032,7 +1034,7 @@ pub fn gen_case_with(ch: &mut Ch, cfg: &Cfg, sigs: Vec<Sig>) -> Built {
         let e = if outs.is_empty() { gen_lit(ch, &vcfg) } else { gen_expr(ch, 2, &env) };
         g.pending_declares.push((n.clone(), e));
     }
-    let mut stmts = vec![];
+    let mut stmts: Vec<Stmt> = vec![];
     g.block(ch, 0, &mut stmts);
     // remaining declarations go to the front or the back
     let rest = std::mem::take(&mut g.pending_declares);
@@ -1043,9 +1045,79 @@ pub fn gen_case_with(ch: &mut Ch, cfg: &Cfg, sigs: Vec<Sig>) -> Built {
             stmts.insert(0, Stmt::Declare(n, e));
         }
     }
+    sanitize_bounds(&mut stmts);
     let prog = Program { header, stmts };
     let analysis = analyse(&prog);
     Built { prog, sigs, cols, analysis }
+}
+
+/// Loop bounds must stay small on *every* iteration, not only the first: a `let` later in an
+/// enclosing loop or while body rebinds (or shadows) a name before the next pass. Any bound
+/// that mentions a name which is bound to a possibly large value anywhere in an enclosing
+/// frame is masked to 0..=3.
+fn sanitize_bounds(stmts: &mut [Stmt]) {
+    fn small_rhs(e: &Expr) -> bool {
+        match e {
+            Expr::Lit(v, _) => *v <= 8,
+            Expr::Un(UnOp::BitNot, a) | Expr::Un(UnOp::Neg, a) => matches!(**a, Expr::Lit(v, _) if v <= 8),
+            _ => false,
+        }
+    }
+    /// names bound to a possibly large value at the level of this frame (while bodies
+    /// included, nested loop bodies excluded: their bindings vanish)
+    fn collect(b: &[Stmt], out: &mut Vec<String>) {
+        for s in b {
+            match s {
+                Stmt::Let(n, e) if !small_rhs(e) && !n.starts_with('w') => out.push(n.clone()),
+                Stmt::Let(n, e) if !small_rhs(e) => {
+                    // the reserved while counters w<k> only ever step by one
+                    let _ = (n, e);
+                }
+                Stmt::While(_, inner) => collect(inner, out),
+                _ => {}
+            }
+        }
+    }
+    fn mentions(e: &Expr, names: &[String]) -> bool {
+        let mut m = false;
+        e.visit(&mut |x| {
+            if let Expr::Var(n) = x {
+                if names.contains(n) {
+                    m = true
+                }
+            }
+        });
+        m
+    }
+    fn masked(e: &Expr) -> bool {
+        matches!(e, Expr::Bin(BinOp::And | BinOp::Rem, _, r) if matches!(**r, Expr::Lit(v, _) if v <= 8))
+            || matches!(e, Expr::Lit(..))
+            || matches!(e, Expr::Un(_, a) if matches!(**a, Expr::Lit(..)))
+    }
+    fn fix(bound: &mut Expr, names: &[String]) {
+        if !masked(bound) && mentions(bound, names) {
+            let b = std::mem::replace(bound, Expr::lit(0));
+            *bound = Expr::bin(BinOp::And, b, Expr::lit(3));
+        }
+    }
+    fn walk(b: &mut [Stmt], unsafe_names: &[String]) {
+        for s in b {
+            match s {
+                Stmt::Repeat(bound, ..) => fix(bound, unsafe_names),
+                Stmt::Loop(_, bound, inner) => {
+                    fix(bound, unsafe_names);
+                    let mut names = unsafe_names.to_vec();
+                    collect(inner, &mut names);
+                    walk(inner, &names);
+                }
+                Stmt::While(_, inner) => walk(inner, unsafe_names),
+                _ => {}
+            }
+        }
+    }
+    let mut names = vec![];
+    collect(stmts, &mut names);
+    walk(stmts, &names);
 }
 
 // ---------------------------------------------------------------------------------------------
